@@ -872,6 +872,17 @@ def rule_r15(ctx) -> RuleResult:
     return rr
 
 
+def rule_r16(ctx) -> RuleResult:
+    """'no internal placeholder character appears anywhere in the tree': encoded text is made of placeholder characters whose
+    meaning is their index in the page's cookie table; a memoised function that returns encoded text hands out, on the next
+    page, characters that index a different table and survive into the tree (seed C01-7A).  Shared with C09.R10."""
+    from ..core.callgraph import CallGraph
+    from ..core.report import shared
+
+    return shared(c09.rule_r10(ctx, CallGraph(ctx.index)), "C01.R16", "no memoised function returns or reaches per-page encoded text (shared with C09.R10)",
+                  "placeholder characters of an earlier page end up in the parse tree", min_instances=1)
+
+
 def run(ctx) -> list:
     return [rule_r1(ctx), rule_r2(ctx), rule_r3(ctx), rule_r4(ctx), rule_r5(ctx), rule_r6(ctx), rule_r7(ctx), rule_r8(ctx),
-            rule_r9(ctx), rule_r10(ctx), rule_r11(ctx), rule_r12(ctx), rule_r13(ctx), rule_r14(ctx), rule_r15(ctx)]
+            rule_r9(ctx), rule_r10(ctx), rule_r11(ctx), rule_r12(ctx), rule_r13(ctx), rule_r14(ctx), rule_r15(ctx), rule_r16(ctx)]
